@@ -3,7 +3,7 @@ HOOKS = {
     "guard": "verif",
     "enable": "go build -tags verif (drivers are added to the module with -overlay, see lib/vlib/gobuild.py)",
     "baseline_off_cmd": "cd /repo && GOFLAGS=-mod=mod GOPROXY=off GOSUMDB=off GOTOOLCHAIN=local go test -json -vet=off -count=1 -timeout 25m ./...",
-    "source_commits": [],
+    "source_commits": ["0c4db6e", "42202d4", "7d1cb3d", "e865236"],
     "add_only": True,
 }
 ENGINES = [
@@ -156,6 +156,31 @@ CHECKS["C09"] = {
     "technique": "TLC-enumerated fault plans (4 base scenarios x {NewMessage, send, receive} failure x operation index 1..7 x Close once/twice; Close injected at every step) replayed against a real Conn with a fault-injecting transport; RpcEndState trace specification + verif view of the connection mutex / sender lock",
     "text": "For every plan: every local call resolves (not by the harness' own timeout), Close returns also the second time, Done closes, nothing is sent after the transport was closed, every capability is shut down, and afterwards mu.TryLock succeeds and the sender lock is free. A run that does not finish within 8 s is reported with a goroutine dump.",
     "note": "Message-level transport only; torn writes of the stream transport (partial write latch) are not exercised by this check.",
+}
+
+CHECKS["C15"] = {
+    "engine": "tlc",
+    "level": "model_checking",
+    "design_ref": "DESIGN.md section 0 (C15/C19/C20), section 4 C15",
+    "technique": "TLA+ layout semantics (Layout.tla: SetField/GetField of a field descriptor on the bytes of a struct) as a trace specification; TLC generates the schemas (SchemaGen.tla: every field kind x default x union/group membership x alignment situation, layout consistency checked as an invariant); capnpc-go built from the working tree generates code for them and for the stored requests, the code is compiled and every generated accessor is called through reflection; TLC judges every recorded before/after byte image",
+    "text": "For 3990 TLC-generated struct layouts (quick: every 8th, rotating with the seed) plus the repository's stored requests (aircraft, rpc, group, util; scopes generated only): the generator succeeds, its output is byte-identical across 4-13 runs and compiles; for every struct and every field (descending into groups) the setter is called with boundary values on all-zero and all-one backgrounds with marker pointers in every slot and the after-image must equal SetField(before) exactly; getters must return GetField on patterned bytes; New/Set/Has of pointer fields may change only their slot and the discriminant; getters and Has of an inactive union member must refuse; Which reads the declared discriminant; allocated sizes equal the node's.",
+    "note": "Schemas come from SchemaGen (three fields per struct: filler, tested field, follower) and the stored requests; interface (capability) typed fields are generated and compiled but their setters are not called. Trusted: TLC, Layout.tla as a reading of the schema language's field descriptors, harness/reqgen (builds the CodeGeneratorRequest from TLC's layouts).",
+}
+CHECKS["C19"] = {
+    "engine": "tlc",
+    "level": "model_checking",
+    "design_ref": "DESIGN.md section 0 (C15/C19/C20), section 4 C19",
+    "technique": "same TLA+ layout specification and TLC-generated schemas as C15; pogs.Insert / pogs.Extract are driven with Go mirror types built from the schema nodes (reflect.StructOf) and every recorded byte image / extracted value is judged by TLC against SetField/GetField; round trips and agreement with the generated getters reported through the same trace",
+    "text": "For every struct type of the generated packages: Insert of each primitive field with boundary values (all other active fields at their defaults, garbage in the inactive members of the selected unions) must produce exactly SetField plus the discriminants on the path; Extract from all-one and patterned raw bytes must return GetField, the right Which values, and leave inactive members zero; one fully populated value per top-level union member is inserted, extracted and compared (DeepEqual), and the generated getters must see the inserted values.",
+    "note": "Go mirror types use default field naming; capnp field tags (rename, omit, embedding) are only covered by the repository's tests. Nested struct types deeper than 2 are left out of the mirror types.",
+}
+CHECKS["C20"] = {
+    "engine": "tlc",
+    "level": "model_checking",
+    "design_ref": "DESIGN.md section 0 (C15/C19/C20), section 4 C20",
+    "technique": "TLA+ specification of text-format string literals (StrQuoteCore: reader Unquote; design check Unquote(SpecQuote(s)) = s) + TLC-generated byte strings over class representatives; code->spec trace validation (TextTrace): every literal the real code produced is well formed and denotes its value, every field token equals the generated accessor's value, the text of a value is the same after any number of prior Encodes",
+    "text": "Every byte string of <= 3 (quick) / 4 (thorough) bytes over 10 class representatives plus every single byte, through strquote.Append and as Text, List(Text) element and Data of rendered structs; struct samples with boundary numbers, enums, booleans, unions; a long-lived Encoder re-renders a probe set after 1, 10, 1000 and every 1/16 of 200000 (quick) / 2000000 (thorough) prior Encodes.",
+    "note": "The harness tokenizer of the text format is trusted to split fields; literals themselves are judged by TLC.",
 }
 
 NOT_APPLICABLE = {
